@@ -411,6 +411,38 @@ pub fn oracle_buildseq(words: &[&str]) -> String {
     }
 }
 
+/// BUILDREP n m1 ; m2 -- one builder: m1 built n times, then m2 (the last result of m1, the result of m2)
+pub fn op_buildrep(n: usize, words: &[&str], oracle: bool) -> String {
+    let msgs: Option<Vec<Message>> = split_semi(words).into_iter().map(parse_msg).collect();
+    let msgs = match msgs {
+        Some(m) if m.len() == 2 => m,
+        _ => return "BAD-OP".into(),
+    };
+    let r = std::panic::catch_unwind(std::panic::AssertUnwindSafe(|| {
+        let mut b = MessageBuilder::new();
+        let mut last = "ERR EncodingNotSupported".to_string();
+        for _ in 0..n {
+            last = res_text(b.build_message(&msgs[0]));
+        }
+        let r2 = res_text(b.build_message(&msgs[1]));
+        (last, r2)
+    }));
+    let (last, r2) = match r {
+        Ok(x) => x,
+        Err(_) => return if oracle { "FAIL C09 build panicked in a long session".into() } else { "PANIC".into() },
+    };
+    if !oracle {
+        return format!("{} ; {}", last, r2);
+    }
+    let mut f1 = MessageBuilder::new();
+    let e1 = if n == 0 { "ERR EncodingNotSupported".to_string() } else { res_text(f1.build_message(&msgs[0])) };
+    let mut f2 = MessageBuilder::new();
+    let e2 = res_text(f2.build_message(&msgs[1]));
+    if last == e1 && r2 == e2 { "PASS".into() } else {
+        format!("FAIL C12 after {} builds: {} / {} fresh builder gives {} / {}", n, &last[..last.len().min(60)], &r2[..r2.len().min(60)], &e1[..e1.len().min(60)], &e2[..e2.len().min(60)])
+    }
+}
+
 /// One element of a BUILDSEQG session: a typed message, or `G <number> <seed>` = the crate's second build
 /// entry point `build_generated_message` (feature `test_gen`, on by default) with seeded generators.
 enum Step { Msg(Message), Gen(u16, u64) }
